@@ -8,6 +8,21 @@ CHECKS = {
   "note": "Trusted: the gosx SSA-to-SMT translation (validated per run by executing solver models of passing paths natively), z3; fmt.Errorf and the two unsafe cast helpers are engine intrinsics. Inputs longer than the bound are outside the claim.",
   "technique": TECH,
  },
+ "C15": {
+  "text": "Bounded symbolic model checking of the codec: Marshal*/Unmarshal*/Writable*Size and ObjectsWriter are executed from their SSA with the value (all 2^64 varints, all fixed-width values), the destination length (0..size+1, arbitrary prior content) and byte-string contents as solver variables; z3 shows round trip, exact consumed/written counts, size prediction, error iff buffer shorter than the size, writer bytes == Marshal bytes, three-item concatenations and independence of newBuf=true results (cell identity). Byte strings at lengths 0..4, 126..129 (quick) and 16382..16385 (thorough).",
+  "note": "Trusted: gosx translation (self-checked natively on solver models every run), z3; fmt.Errorf and the unsafe cast helpers are intrinsics; the io.Writer is a harness sink that never fails. Byte strings longer than 16385 bytes are outside the claim.",
+  "technique": TECH,
+ },
+ "C14": {
+  "text": "Bounded symbolic model checking with an inductive step: for every capacity 0..4 (quick) / 0..8 (thorough) the ring buffer is put into an arbitrary representation state (every read/write index pair, symbolic contents, zero outside the live window), one operation with symbolic arguments (Skip/At unconstrained 64-bit) is executed from the real SSA and z3 shows the result and post-state equal the FIFO model's, the invariant (incl. zeroed consumed slots) is re-established and At panics exactly out of range - covering histories of any length for those capacities; plus API histories from the constructor and SliceFill for all lengths 0..130.",
+  "note": "Trusted: gosx translation (self-checked natively), z3; instantiation ringBuffer[int]; fmt intrinsics. Larger capacities and NewRingBuffer(MaxUint) are outside the claim.",
+  "technique": TECH + "; inductive step from a symbolic invariant state",
+ },
+ "C17": {
+  "text": "Bounded symbolic model checking in four groups: (1) constructor validation for every 64-bit block size rejected by GetBlocksInSegment (must return ErrInvalid, no panic) and every accepted size up to 1 (quick) / 3 (thorough) pages with symbolic buffer size; (2) index arithmetic of Block/getBlockIdxInHdr for constant block sizes, 1..65536 segments and all index pairs: ranges disjoint, inside their segment, outside headers, header bits injective (z3 with cvc5 --solve-bv-as-int=sum as fallback for the division-heavy obligations); (3) inductive step on the real in-memory buffer with all bytes symbolic and any free-hint satisfying the invariant: ArrangeBlock/FreeBlock/Block change exactly one header bit or nothing, ErrExhausted iff nothing free, Available tracks, lock-set check on header bytes/freeIdx; (4) reopening arbitrary bytes reproduces the allocated set.",
+  "note": "Trusted: gosx translation (self-checked natively), z3/cvc5; os.Getpagesize()=4096; Buffer contract stub in groups 1-2; sync.Mutex/atomic intrinsics. Bitmap reasoning only for block sizes <= 4 (quick) / 8 (thorough) and <= 3 segments; the memory-mapped backend and real concurrency beyond the lock-set argument are outside the claim.",
+  "technique": TECH + "; inductive step from a symbolic invariant state; lock-set check",
+ },
 }
 
 _PENDING = "check not built yet in this session (solver-based harness planned, see DESIGN.md section 4)"
